@@ -47,6 +47,31 @@ Theorem C06_row_sound : forall nd r g d h o h' o',
 Proof. exact copy_row_sound. Qed.
 Print Assumptions C06_row_sound.
 
+(* (2b) copy-constructor calls WITH keyword overrides, dst(source, name= / charge= / mult= / coords= /
+   atomic_charges= / weights=): for EVERY heap, source and argument values, along any tabulated route the
+   construction leaves the source as it was, the result is separated from the source (a replaced array is a
+   fresh one, never the source's), every field the call does not name is the source's -- arrays, bonds and
+   attributes under the masked need, name / charge / mult position by position -- and the named scalars are
+   the call's.  `copy_route` is `copy_row` with the call's values as `given`, so (2), (3), (4) apply as well. *)
+Theorem C06_override_copy : forall k d v x,
+  lookup_row table k (RCtorWith d v) = Some x -> lone k = false ->
+  forall g h o h' o', heap_wf h -> copy_route (RCtorWith d v) x g (kls_code d) h o = Some (h', o') ->
+  separated h' o' o
+  /\ (forall l, In l (reach h' o') -> ~ In l (reach h' o))
+  /\ exists ob ob', obs h o = Some ob /\ obs h' o = Some ob /\ obs h' o' = Some ob'
+        /\ o_cls ob' = kls_code d /\ faithful_on (need_known known k (RCtorWith d v)) ob ob'
+        /\ length (o_scal ob') = length (o_scal ob)
+        /\ (forall i, nth i (ovr_mask v) false = false -> nth_error (o_scal ob') i = nth_error (o_scal ob) i)
+        /\ (r_scal x = false -> forall i, nth i (ovr_mask v) false = true -> i < length (o_scal ob) -> i < length (g_scal g) ->
+               nth_error (o_scal ob') i = nth_error (g_scal g) i).
+Proof. exact (table_override_sound known table C06_table_ok). Qed.
+Print Assumptions C06_override_copy.
+
+Theorem C06_override_is_copy_row : forall rt r g d h o x,
+  copy_route rt r g d h o = Some x -> exists g', copy_row r g' d h o = Some x.
+Proof. exact copy_route_row. Qed.
+Print Assumptions C06_override_is_copy_row.
+
 (* (3) the frame rule, for EVERY mutation: any sequence of writes / allocations confined to what the
    mutated object reaches leaves the observation of an object with a disjoint region unchanged *)
 Theorem C06_mutation_frame : forall h (SA SB : loc -> Prop) a b ps,
@@ -119,5 +144,30 @@ Example C06_hypotheses_satisfiable :
       | None => False
       end
   | None => False
+  end.
+Proof. vm_compute. repeat split; reflexivity. Qed.
+
+(* the same molecule copied with coords= (a required route): the result has the call's coordinates in an
+   array of its own, the source's name / charge / multiplicity and partial charges; the source is as it was.
+   With name=: the call's name, the source's charge and multiplicity. *)
+Example C06_override_hypotheses_satisfiable :
+  let v := mk_ovr false false false true false false in
+  let w := mk_ovr true false false false false false in
+  existsb (fun kr => kls_eqb (fst kr) KMolecule && route_eqb (snd kr) (RCtorWith KMolecule v)) required = true /\
+  match lookup_row table KMolecule (RCtorWith KMolecule v), lookup_row table KMolecule (RCtorWith KMolecule w) with
+  | Some x, Some y =>
+      match copy_route (RCtorWith KMolecule v) x (mk_given [9; 8; 7]%Z [0; 0; 0; 0; 0; 0]%Z [] []) 5 ex_heap 0,
+            copy_route (RCtorWith KMolecule w) y (mk_given [9; 8; 7]%Z [] [] []) 5 ex_heap 0 with
+      | Some (h', o'), Some (h'', o'') =>
+          o' = 12 /\ disjointb (reach h' o') (reach h' 0) = true
+          /\ obs_eqb (obs h' 0) (obs ex_heap 0) = true
+          /\ option_map o_scal (obs h' o') = Some [1; 0; 1]%Z
+          /\ option_map o_coords (obs h' o') = Some (Some [0; 0; 0; 0; 0; 0]%Z)
+          /\ option_map o_charges (obs h' o') = Some (Some [7; 8]%Z)
+          /\ r_scal y = false /\ option_map o_scal (obs h'' o'') = Some [9; 0; 1]%Z
+          /\ option_map o_coords (obs h'' o'') = Some (Some [1; 2; 3; 4; 5; 6]%Z)
+      | _, _ => False
+      end
+  | _, _ => False
   end.
 Proof. vm_compute. repeat split; reflexivity. Qed.
